@@ -35,7 +35,8 @@ RULE = (
     "(incl. pulls exactly on publications, at the step position, 1us steps, pulls spanning several publications), the "
     "initial pull at the first publication time, and out-of-range pulls; AvgOverTime and SumOverTime, linear and "
     "step in {0,1/4,1/2,1,1/8,3/4,1/3,2/3,1/10,3/10}, per_time and absolute, initial_interval in {0,1us,1h,1d}, units "
-    "m/s, mm/d, m, dimensionless, 1/d, scalar and small gridded payloads; a quarter of the cases give the adapter a "
+    "m/s, mm/d, m, dimensionless, 1/d, scalar and small gridded payloads; a third of the series contain plateaus "
+    "(the same payload, often zeros, published 3 or more times in a row); a quarter of the cases give the adapter a "
     "memory limit (0 / 1.5 payloads / huge) with one spill directory per worker process and are preceded by another "
     "coupling (other payloads) in the same process and directory; non-trivial = at least 3 publications and at "
     "least two successful pulls with p0 < p1 of which one spans a publication and one lies strictly inside a "
@@ -79,6 +80,10 @@ def _gen_case(rng, i, malformed):
     nops = rng.randint(4, 22)
     t = rng.choice([0, 0, 5, DAY])
     pubs, ops = [], []
+    # plateaus: the source publishes the SAME payload several times in a row (dry spell, constant rate); every
+    # published interval still counts (absolute sums: once per interval, whatever its length)
+    plateau = rng.random() < 0.35
+    last_payload = None
     prev = None          # the adapter's _prev_time
     pulled_later = False  # a pull later than the first publication happened
 
@@ -89,7 +94,15 @@ def _gen_case(rng, i, malformed):
         pubs.append(t)
         if prev is None:
             prev = t
-        ops.append(["push", t, [_val(rng, exact) for _ in range(n)]])
+        nonlocal last_payload
+        if plateau and last_payload is not None and rng.random() < 0.7:
+            payload = list(last_payload)
+        elif plateau and rng.random() < 0.3:
+            payload = [0.0] * n
+        else:
+            payload = [_val(rng, exact) for _ in range(n)]
+        last_payload = payload
+        ops.append(["push", t, payload])
 
     if not (malformed and rng.random() < 0.4):
         push()
@@ -103,7 +116,7 @@ def _gen_case(rng, i, malformed):
                 push()
             continue
         hi = pubs[-1]
-        if rng.random() < 0.4 or prev >= hi:
+        if rng.random() < (0.6 if plateau else 0.4) or prev >= hi:
             if prev >= hi and rng.random() < 0.15 and not pulled_later and len(pubs) == 1:
                 ops.append(["pull", pubs[0]])    # repeated initial pull
                 continue
@@ -159,7 +172,29 @@ def _six_hourly(days):
     return [["pull", k * DAY // 4] for k in range(0, 4 * days + 1)]
 
 
+def _plateau_series(stride, days=9, **kw):
+    """daily series with plateaus (3 x 7, 4 x 0), consumer with the given stride (seeded C12_f)"""
+    vals = [3, 7, 7, 7, 2, 0, 0, 0, 0, 5]
+    ops = [["push", 0, [float(vals[0])]], ["pull", 0]]
+    nxt = stride
+    for d in range(1, days + 1):
+        ops.append(["push", d * DAY, [float(vals[d])]])
+        while nxt <= d * DAY:
+            ops.append(["pull", nxt])
+            nxt += stride
+    return ops
+
+
 CORPUS = [
+    # plateaus in the source series: every published interval counts in an absolute sum, equal values or not
+    _case("sum", None, False, _plateau_series(DAY // 4), units="mm"),
+    _case("sum", [3, 10], False, _plateau_series(3 * DAY // 2), units="mm"),
+    _case("sum", [0, 1], False, _plateau_series(3 * DAY), units="mm", mem=0),
+    _case("sum", None, True, _plateau_series(3 * DAY // 8)),
+    _case("avg", [1, 1], False, _plateau_series(DAY)),
+    _case("sum", [1, 2], False, [["push", 0, [0.0, 1.0]], ["pull", 0], ["push", 4, [0.0, 1.0]], ["push", 8, [0.0, 1.0]],
+                                 ["push", 16, [0.0, 1.0]], ["pull", 3], ["pull", 16], ["push", 32, [2.0, 1.0]], ["pull", 32]],
+          units="m", shape=[2], exact=True),
     # spilled buffer, consumer finer than the source: several pulls between publications, the first of them trims
     # the buffer (seeded C12_d)
     _case("avg", None, False, _daily([1, 2, 4, 8]) + _six_hourly(3), mem=0),
@@ -411,6 +446,11 @@ def nontrivial(case, obs):
     return st["pubs"] >= 3 and st["strict"] >= 2 and st["spans"] >= 1 and st["inside"] >= 1
 
 
+def _has_plateau(case):
+    vs = [op[2] for op in case["ops"] if op[0] == "push"]
+    return any(vs[i] == vs[i + 1] == vs[i + 2] for i in range(len(vs) - 2))
+
+
 def distribution(cases, obss):
     ad = Counter((c["adapter"] + ("/per_time" if c["per_time"] else "/abs" if c["adapter"] == "sum" else "")
                   + ("/linear" if c["step"] is None else "/step")) for c in cases)
@@ -422,6 +462,7 @@ def distribution(cases, obss):
     return {"adapters": dict(ad), "step_positions": dict(steps), "payload_shapes": dict(shapes), "source_units": dict(units),
             "delivered_units": dict(out_units), "pull_results": dict(res),
             "memory_limit": dict(Counter(str(c.get("mem")) for c in cases)),
+            "series_with_plateau_of_3_or_more": sum(1 for c in cases if _has_plateau(c)),
             "exact_dyadic_cases": sum(1 for c in cases if c["exact"])}
 
 
